@@ -416,6 +416,84 @@ def obsSpec (obs : List String) (streamKind : Bool) : SS Val → R Res
       | none => .diverge
     | _ => .diverge
 
+/-! ### element kinds: the named functions are only meaningful on the kind of element they are
+written for (`\\x -> x + 1` on a list element raises in the real interpreter; the model has no
+element errors).  The harness never generates such compositions; the driver double-checks and
+answers `unsupported` so that a generator slip cannot become a false alarm. -/
+inductive K where
+  | int | list | any | bad
+  deriving DecidableEq
+
+def K.join : K → K → K
+  | .any, k => k
+  | k, .any => k
+  | .int, .int => .int
+  | .list, .list => .list
+  | _, _ => .bad
+
+def kindOfVal : Val → K
+  | .int _ => .int
+  | _ => .list
+
+def kindOfList (l : List Val) : K := l.foldl (fun k v => k.join (kindOfVal v)) .any
+
+/-- domain and codomain of a named unary function -/
+def fnSig (f : String) : K × K :=
+  match (splitArg f).1 with
+  | "add" | "mul" | "sq" | "neg" => (.int, .int)
+  | "pair" => (.any, .list)
+  | "lenf" => (.list, .int)
+  | "const" => (.any, .int)
+  | _ => (.bad, .bad)
+
+def predDom (p : String) : K :=
+  match (splitArg p).1 with
+  | "lt" | "gt" | "ne" | "even" => .int
+  | "lenlt" | "evenlen" => .list
+  | "tt" | "ff" => .any
+  | _ => .bad
+
+def K.fits (dom k : K) : Bool := (dom.join k) != .bad
+
+mutual
+def kindOf : SExpr → K
+  | .range _ => .int
+  | .perms _ | .combs _ _ | .subseqs _ | .cpow _ _ => .list
+  | .wrap base => kindOfList base
+  | .rep v => kindOfVal v
+  | .cyc base => kindOfList base
+  | .iter f v =>
+    let (d, c) := fnSig f
+    if d.fits .int && c == .int && kindOfVal v == .int then .int else .bad
+  | .map f e =>
+    let (d, c) := fnSig f
+    let k := kindOf e
+    if k != .bad && d.fits k then c else .bad
+  | .filter p e =>
+    let k := kindOf e
+    if k != .bad && (predDom p).fits k then k else .bad
+  | .zip f es =>
+    let ks := kindsOf es
+    if ks.any (· == .bad) then .bad
+    else match f with
+      | "plus" | "lin" => if ks.all (fun k => K.fits .int k) then .int else .bad
+      | "firstf" => ks.headD .bad
+      | _ => .list
+  | .dropS _ e => kindOf e
+  | .revS e => kindOf e
+  | .dropWhile p e =>
+    let k := kindOf e
+    if k != .bad && (predDom p).fits k then k else .bad
+def kindsOf : List SExpr → List K
+  | [] => []
+  | e :: es => kindOf e :: kindsOf es
+end
+
+def obsKindOk (obs : List String) (k : K) : Bool :=
+  match obs with
+  | ["takeWhile", p] => (predDom p).fits k
+  | _ => true
+
 def splitAt (xs : List String) : List String × List String :=
   (xs.takeWhile (· ≠ "@"), (xs.dropWhile (· ≠ "@")).drop 1)
 
@@ -427,6 +505,7 @@ def handle (args : List String) : String :=
   let (obs, ex) := splitAt args
   match parseExpr ex with
   | some (e, []) =>
+    if kindOf e == .bad || !obsKindOk obs (kindOf e) then "unsupported\tunsupported\tunsupported" else
     let impl := (evalExpr e).bind (obsImpl obs)
     let specS := specExpr e
     let spec := specS.bind (obsSpec obs (isStreamRes impl))
